@@ -95,6 +95,10 @@ class BrokerState:
             for waiter in sorted(
                 worker_state.collected_waiters, key=lambda x: x.waiter_id
             ):
+                if waiter.resolved_event is not None:
+                    # Already answered: the step's replay is queued (or was in progress
+                    # and is rewound); a second ping would run the step twice.
+                    continue
                 if waiter.has_requirements and not waiter.requirements:
                     commands.append(
                         TickAddEvent(event=waiter.event, step_name=step_name)
